@@ -219,9 +219,28 @@ func (p *Parser) Parse() (*SelectStatement, error) {
 		}
 	}
 
+	sawWith := p.lexer.lookupIdent(p.lexer.readPreviousIdentifier()).Type == TokenWITH
 	if err := p.parseWith(stmt); err != nil {
 		if !p.errorRecovery.RecoverFromError(ErrorTypeSyntax) {
 			return nil, p.createDetailedError(err)
+		}
+	}
+
+	// HAVING may also be written after WITH (...); it used to be dropped silently there.
+	if sawWith && stmt.Having == "" {
+		snap := p.lexer.save()
+		tok := p.lexer.NextToken()
+		if tok.Type == TokenRParen {
+			tok = p.lexer.NextToken()
+		}
+		if tok.Type == TokenHAVING {
+			if err := p.parseHaving(stmt); err != nil {
+				if !p.errorRecovery.RecoverFromError(ErrorTypeSyntax) {
+					return nil, p.createDetailedError(err)
+				}
+			}
+		} else {
+			p.lexer.restore(snap)
 		}
 	}
 
